@@ -31,7 +31,7 @@ func TestVerifC02Acks(t *testing.T) {
 				ackErr = err
 			}
 		}
-		h := &simHist{s: s, opts: simHistOpts{MaxRounds: 7, Faults: true, Inline: true, KillAfter: true}}
+		h := &simHist{s: s, opts: simHistOpts{MaxRounds: 7, Faults: true, Inline: true, KillAfter: true, HTTP: true}}
 		ntRounds := 0
 		h.afterRound = func(res *simRoundResult) error {
 			if ackErr != nil {
@@ -82,9 +82,11 @@ func TestVerifC02Acks(t *testing.T) {
 		add(st.KillsAfterAck > 0, "killed-after-ack")
 		add(st.CacheRollbacks > 0, "cache-rollback")
 		add(st.FaultsFired > 0, "fault-fired")
+		add(h.HTTPAcks > 0, "sct-verified-over-http")
 		add(st.Crashes > 0, "crash")
 		add(st.FailedPools > 0, "failed-pool")
 		rec.Add("acknowledgements", int64(len(s.acks)))
+		rec.Add("scts-verified", int64(h.HTTPAcks))
 		rec.Add("inline-submissions", int64(st.InlineRun))
 		rec.Add("rounds", int64(st.Rounds))
 		rec.CaseSample(fmt.Sprintf("acks=%d %s", len(s.acks), strings.Join(st.Desc, "; ")), st.Desc, nt, cls...)
